@@ -90,16 +90,17 @@ type Result struct {
 }
 
 type Task struct {
-	ID       string
-	idx      int
-	nchild   int
-	wake     chan struct{}
-	state    int32 // 0 running or blocked, 1 parked at a gate, 2 parked at an idle gate
-	site     string
-	lastSite string
-	done     bool
-	prio     int
-	gates    uint64
+	ID         string
+	idx        int
+	nchild     int
+	wake       chan struct{}
+	state      int32 // 0 running or blocked, 1 parked at a gate, 2 parked at an idle gate
+	site       string
+	lastSite   string
+	done       bool
+	prio       int
+	gates      uint64
+	drainGates uint64
 }
 
 const maxTasks = 8192
@@ -110,40 +111,43 @@ type goidEntry struct {
 }
 
 type Sim struct {
-	cfg      Config
-	mu       sync.Mutex
+	cfg Config
+	mu  sync.Mutex
 	// fixed arrays, no append/copy: the runtime's slice helpers are race-annotated even when called from
 	// //go:norace functions, and these tables are touched from many goroutines inside hidden sections
-	tasks    [maxTasks]*Task
-	ntasks   int
-	byGoid   [maxTasks]goidEntry
-	ngoid    int
-	rngSched *Rng
-	rngTime  *Rng
-	rngMap   *Rng
-	rngSel   *Rng
-	steps    int
-	start    time.Time
-	hash     uint64
-	choices  int
-	maxPark  int
-	draining bool
-	last     *Task
-	panics   []PanicInfo
-	trace    []string
-	stuck    bool
-	stuckMsg string
-	quantum  time.Duration
-	changeAt []int
-	stopped  bool
-	exitMu   sync.Mutex
-	exits    int
-	kick     chan struct{}
-	stalls   int
-	sameRun  int
-	spins    int
-	cpuDebt  time.Duration
+	tasks     [maxTasks]*Task
+	ntasks    int
+	byGoid    [maxTasks]goidEntry
+	ngoid     int
+	rngSched  *Rng
+	rngTime   *Rng
+	rngMap    *Rng
+	rngSel    *Rng
+	steps     int
+	start     time.Time
+	hash      uint64
+	choices   int
+	maxPark   int
+	draining  bool
+	last      *Task
+	panics    []PanicInfo
+	trace     []string
+	stuck     bool
+	stuckMsg  string
+	quantum   time.Duration
+	changeAt  []int
+	stopped   bool
+	exitMu    sync.Mutex
+	exits     int
+	kick      chan struct{}
+	stalls    int
+	sameRun   int
+	spins     int
+	cpuDebt   time.Duration
 	stallTime time.Duration
+	winSteps  int
+	winStart  time.Time
+	escalate  bool
 }
 
 var cur atomic.Pointer[Sim]
@@ -265,7 +269,7 @@ func (t *Task) park(site string, kind int32) {
 }
 
 //go:norace
-func (t *Task) bump() { t.gates++ }
+func (t *Task) bump() uint64 { t.drainGates++; t.gates++; return t.drainGates }
 
 //go:norace
 func (s *Sim) isDraining() bool { return s.draining }
@@ -282,7 +286,11 @@ func gate(site string, kind int32) {
 		return
 	}
 	if s.isDraining() {
-		t.bump()
+		// the run is over and gates are open; a task that still passes gates by the ten thousands is spinning
+		// and would keep the bubble from ever ending: park it for good
+		if t.bump() > 20000 {
+			<-make(chan struct{})
+		}
 		raceEnable()
 		return
 	}
@@ -534,7 +542,16 @@ func (s *Sim) release(t *Task) {
 		s.sameRun = 0
 	}
 	cost := time.Microsecond
-	if s.sameRun > 3000 {
+	// a run that burns tens of thousands of steps while the clock barely moves contains a busy-wait loop
+	// (possibly interleaved with periodic tasks): charge more until timers drive the clock again
+	s.winSteps++
+	if s.winSteps >= 50000 {
+		if time.Since(s.winStart) < 100*time.Millisecond {
+			s.escalate = true
+		}
+		s.winSteps, s.winStart = 0, time.Now()
+	}
+	if s.sameRun > 3000 || s.escalate {
 		cost = time.Millisecond
 		s.spins++
 	}
@@ -740,7 +757,7 @@ func runBubble(t *testing.T, cfg Config, root func(), resp *Result) {
 	var res Result
 	defer func() { *resp = res }()
 	synctest.Test(t, func(t *testing.T) {
-		s := &Sim{cfg: cfg, start: time.Now(), kick: make(chan struct{}, 1)}
+		s := &Sim{cfg: cfg, start: time.Now(), kick: make(chan struct{}, 1), winStart: time.Now()}
 		s.rngSched = NewRng(cfg.Seed, "sched")
 		s.rngTime = NewRng(cfg.Seed, "time")
 		s.rngMap = NewRng(cfg.Seed, "maporder")
